@@ -73,6 +73,9 @@ Step(st0, e, strict) ==
                   carry(i) == IF m.prepped /\ RecOf(m, recs[i].a) # {} THEN LET o == m.recs[Pick(RecOf(m, recs[i].a))] IN [recs[i] EXCEPT !.kc = o.kc, !.att = o.att] ELSE recs[i]
               IN IF strict /\ SeqToBag(addrs) # SeqToBag(m.rc) THEN R(st, "C03:RecipientDroppedOrDuplicatedAtPreprocessing")
                  ELSE IF m.prepped /\ ~st.crashed THEN R(st, "C02:MessagePreprocessedTwice")
+                 \* (a message whose todo entry could not be removed is preprocessed again at the next scan: that is harmless only
+                 \* if no delivery of it was started in between - the daemon must not schedule it before the cleaner confirmed)
+                 ELSE IF ~st.crashed /\ \E i \in 1..Len(m.recs) : m.recs[i].att > 0 THEN R(st, "C04:MessagePreprocessedAgainAfterDeliveriesStarted")
                  ELSE IF ~m.todo THEN R(st, "C02:PreprocessedWithoutTodoEntry")
                  ELSE R([st EXCEPT !.msgs[n].prepped = TRUE, !.msgs[n].birth = e.t, !.msgs[n].recs = [i \in 1..Len(recs) |-> carry(i)],
                                    !.msgs[n].chgone = <<~\E i \in 1..Len(recs) : recs[i].c = 0, ~\E i \in 1..Len(recs) : recs[i].c = 1>>], "")
